@@ -1229,7 +1229,7 @@ func (il *inliner) finishUp(modFns []*ssa.Function, dead map[*ssa.Function]bool)
 						continue
 					}
 					fn, _ := mc.Fn.(*ssa.Function)
-					if fn == nil || fn.Parent() != f || len(fn.AnonFuncs) > 0 {
+					if fn == nil || fn.Parent() != f {
 						continue
 					}
 					if ok, _ := il.inlinable(fn); !ok {
@@ -1272,10 +1272,19 @@ func (il *inliner) finishUp(modFns []*ssa.Function, dead map[*ssa.Function]bool)
 							}
 						}
 						if n == 0 {
-							g.Blocks = nil
-							if dead != nil {
-								dead[g] = true
+							// the closure is gone, and with it the originals of the
+							// functions nested in it (their copies now belong to f)
+							var kill func(h *ssa.Function)
+							kill = func(h *ssa.Function) {
+								h.Blocks = nil
+								if dead != nil {
+									dead[h] = true
+								}
+								for _, af := range h.AnonFuncs {
+									kill(af)
+								}
 							}
+							kill(g)
 							continue
 						}
 					}
